@@ -4,3 +4,169 @@ from . import engine
 
 def ref(prop, case, agg, options=None):
     engine.check_ref(prop, case, agg, options)
+
+
+# ---------------------------------------------------------------------------------------------
+# C02: differential optimisation off / on
+# ---------------------------------------------------------------------------------------------
+def diff(prop, case, agg, units=None):
+    from . import lang
+    from .engine import case_prog, short, vm_outcome
+    from .nslapi import compile_src, link, listing
+    from .refsem import values_equal
+
+    units = case["units"] if units is None else units
+    src = case["src"] if "src" in case else lang.render(case_prog(case, units), case.get("mode", "min"))
+    r0 = compile_src(src, {"optimize": False})
+    r1 = compile_src(src, {"optimize": True})
+    if len(units) > 1 and not (r0.ok and r1.ok):
+        h = len(units) // 2
+        diff(prop, case, agg, units[:h])
+        diff(prop, case, agg, units[h:])
+        return
+    desc = (units[0].get("desc") if len(units) == 1 else None) or case["desc"]
+    agg.evals += 1
+    if r0.ok != r1.ok:
+        agg.nontrivial += 1
+        agg.fail({"key": f"{prop}|{case['fam']}|accept-differs|{r0.cls()} vs {r1.cls()}|{desc}", "source": src,
+                  "expected": f"same accept/reject decision (optimize off: {r0.cls()})", "observed": f"optimize on: {r1.cls()} {r1.msg or ''}"})
+        return
+    if not r0.ok:
+        agg.stats["both-rejected"] += 1
+        return
+    try:
+        p0 = link(r0.module)
+    except BaseException:
+        agg.stats["unoptimised-does-not-link"] += 1
+        return
+    try:
+        p1 = link(r1.module)
+    except BaseException as e:
+        agg.fail({"key": f"{prop}|{case['fam']}|link-differs|{type(e).__name__}|{desc}", "source": src,
+                  "expected": "optimised module links like the unoptimised one", "observed": repr(e)[:200]})
+        return
+    changed = listing(r0.module) != listing(r1.module)
+    if changed:
+        agg.stats["optimiser-changed-listing"] += 1
+    for u in units:
+        udesc = u.get("desc") or case["desc"]
+        for args, globs in u["inputs"]:
+            agg.evals += 1
+            a = vm_outcome(p0, u["entry"], args, globs)
+            b = vm_outcome(p1, u["entry"], args, globs)
+            if changed:
+                agg.nontrivial += 1
+            same = a[0] == b[0] and (a[0] != "ok" or (values_equal(a[1], b[1]) and values_equal(a[2], b[2])))
+            if a[0] == "exc" and b[0] == "exc":
+                same = True  # both fail (C05's business); class may legitimately differ
+            if not same:
+                if b[0] == "ok" and a[0] == "ok":
+                    kind, where = "value-differs", "return" if not values_equal(a[1], b[1]) else "globals"
+                elif b[0] != "ok" and a[0] == "ok":
+                    kind, where = "optimised-fails", ("timeout" if b[0] == "timeout" else f"{b[1]}@{b[2]}")
+                else:
+                    kind, where = "unoptimised-fails-only", ("timeout" if a[0] == "timeout" else f"{a[1]}@{a[2]}")
+                agg.fail({"key": f"{prop}|{case['fam']}|{kind}|{where}|{udesc}",
+                          "source": src if len(units) == 1 else lang.render(case_prog(case, [u]), case.get("mode", "min")),
+                          "entry": u["entry"], "inputs": {"args": args, "globals": globs},
+                          "expected": "optimize=False: " + short(a), "observed": "optimize=True: " + short(b)})
+                break
+    if len(agg.samples) < 2:
+        agg.samples.append({"source": src[:500], "entry": units[0]["entry"], "optimiser_changed_listing": changed})
+
+
+def replay_diff(rec, verbose=True):
+    from .engine import vm_outcome
+    from .nslapi import compile_src, link
+    from .refsem import values_equal
+
+    r0 = compile_src(rec["source"], {"optimize": False})
+    r1 = compile_src(rec["source"], {"optimize": True})
+    if verbose:
+        print(rec["source"])
+        print("optimize off:", r0.cls(), "| optimize on:", r1.cls(), r1.msg or "")
+    if r0.ok != r1.ok:
+        return True
+    if not r0.ok or "inputs" not in rec:
+        return False
+    args, globs = rec["inputs"]["args"], rec["inputs"]["globals"]
+    a = vm_outcome(link(r0.module), rec["entry"], args, globs)
+    try:
+        b = vm_outcome(link(r1.module), rec["entry"], args, globs)
+    except BaseException as e:
+        b = ("link-failed", repr(e))
+    if verbose:
+        print("inputs", rec["inputs"], "\n off:", a, "\n on: ", b)
+        print("def test_replay():\n    from nsl import Compiler, LinearIR, VM\n    out = []\n    for o in (False, True):\n"
+              f"        r = Compiler.Compiler().Compile({rec['source']!r}, {{'optimize': o}})\n"
+              "        l = LinearIR.Linker(); l.AddModule(r.IRModule); vm = VM.VirtualMachine(l.Link())\n"
+              + "".join(f"        vm.SetGlobal({k!r}, {v!r})\n" for k, v in globs.items())
+              + f"        out.append(vm.Invoke({rec['entry']!r}, **{args!r}))\n    assert out[0] == out[1]")
+    if a[0] == "exc" and b[0] == "exc":
+        return False
+    return not (a[0] == b[0] and (a[0] != "ok" or (values_equal(a[1], b[1]) and values_equal(a[2], b[2]))))
+
+
+# ---------------------------------------------------------------------------------------------
+# C14: IR well-formedness at both optimisation levels
+# ---------------------------------------------------------------------------------------------
+def irwf(prop, case, agg, units=None):
+    from . import irwf as W
+    from . import lang
+    from .engine import case_prog
+    from .nslapi import compile_src, link
+
+    units = case["units"] if units is None else units
+    src = case["src"] if "src" in case else lang.render(case_prog(case, units), case.get("mode", "min"))
+    for opt in (False, True):
+        res = compile_src(src, {"optimize": opt})
+        if not res.ok:
+            if len(units) > 1:
+                h = len(units) // 2
+                irwf(prop, case, agg, units[:h])
+                irwf(prop, case, agg, units[h:])
+                return
+            agg.stats["not-compiled:" + res.status] += 1
+            continue
+        try:
+            program = link(res.module)
+        except BaseException:
+            program = None
+            agg.stats["does-not-link"] += 1
+        unknown = set()
+        nfun = len(res.module.Functions)
+        agg.evals += nfun
+        agg.nontrivial += nfun
+        for f in res.module.Functions.values():
+            agg.stats["blocks>1"] += 1 if len(f.BasicBlocks) > 1 else 0
+        probs = W.check_module(res.module, program, unknown)
+        for c in unknown:
+            agg.stats["unknown-instruction-class:" + c] += 1
+        for p in probs:
+            agg.fail({"key": f"{prop}|{case['fam']}|{p['kind']}|{p['where']}|opt={int(opt)}", "source": src,
+                      "options": {"optimize": opt}, "expected": "well-formed IR", "observed": p["detail"]})
+    if len(agg.samples) < 2:
+        agg.samples.append({"source": src[:500]})
+
+
+def replay_irwf(rec, verbose=True):
+    from . import irwf as W
+    from .nslapi import compile_src, link, listing
+
+    res = compile_src(rec["source"], rec.get("options"))
+    if not res.ok:
+        if verbose:
+            print("does not compile:", res.cls())
+        return False
+    try:
+        program = link(res.module)
+    except BaseException:
+        program = None
+    probs = W.check_module(res.module, program)
+    if verbose:
+        print(rec["source"], "\noptions", rec.get("options"))
+        print(listing(res.module))
+        for p in probs:
+            print("PROBLEM", p)
+    kind = rec["key"].split("|")[2]
+    return any(p["kind"] == kind for p in probs)
